@@ -3,8 +3,11 @@
     code (known findings F1, F2): the refutations below are machine-checked.
     What is proved positively: the answer is monotone in the depth (with
     the same step number), and the two counterfactual switches remove the
-    witnesses.  Local soundness lemmas: see Proofs/ (in progress). *)
-From BB Require Import Base TM Ref InstrsModel TapeModel ReasonModel ReasonFacts.
+    witnesses, and the LOCAL soundness of the building blocks (every plain
+    backward step and every indefinite sweep is a sound over-approximation;
+    the targets are complete; one full round of the main loop covers the real
+    predecessor outside the F1 branch) - Proofs/BackstepSound.v. *)
+From BB Require Import Base TM Ref InstrsModel TapeModel ReasonModel ReasonFacts StepSim BackstepSound.
 
 (** the property as stated (kept visible; refuted below) *)
 Definition C04_bw_refuted_sound_stmt : Prop :=
@@ -53,3 +56,58 @@ Theorem C04_bw_mono : forall sw comp d d', d <= d' ->
   (cant_spin_out_sw sw comp d <> Ok BwStepLimit -> cant_spin_out_sw sw comp d' = cant_spin_out_sw sw comp d).
 Proof. exact bw_mono. Qed.
 Print Assumptions C04_bw_mono.
+
+(** ---- local soundness of the building blocks (concretisation [bs_conc]) ---- *)
+
+(** a plain backward step: the pruning test passes and the abstract
+    predecessor covers the real predecessor *)
+Theorem C04_backstep_exact : forall (P : prog) q z q' z' t pr sh,
+  tm_step P (q, z) = Some (q', z') ->
+  P (q, zc z) = Some (pr, sh, q') ->
+  bs_conc t z' ->
+  pulls_indef t sh = false ->
+  check_step t sh pr = true /\ bs_conc (backstep t sh (zc z)) z.
+Proof. exact backstep_exact. Qed.
+Print Assumptions C04_backstep_exact.
+
+(** an indefinite sweep of k >= 1 same-state steps is covered by [push_indef] *)
+Theorem C04_indef_covers : forall (P : prog) q c pr sh k z z' t b,
+  P (q, c) = Some (pr, sh, q) ->
+  (1 <= k)%nat ->
+  sweep_run P q c k z z' ->
+  bs_conc t z' ->
+  check_spinout t sh c = Some b ->
+  bs_conc (push_indef t sh) z.
+Proof. exact indef_covers. Qed.
+Print Assumptions C04_indef_covers.
+
+(** exactly when [check_spinout] answers, and what: the F1 branch is [Some false] *)
+Theorem C04_check_spinout_spec : forall t sh read b,
+  check_spinout t sh read = Some b <->
+  let pull := if sh then bs_lspan t else bs_rspan t in
+  let push := if sh then bs_rspan t else bs_lspan t in
+  bs_scan t = read /\ sp_blocks pull = [] /\
+  (sp_end pull = EndBlanks \/ sp_blocks push <> []) /\
+  b = negb (bspan_matches_color push (bs_scan t)).
+Proof. exact check_spinout_spec. Qed.
+Print Assumptions C04_check_spinout_spec.
+
+(** one full round of the main loop covers the real predecessor of a plain
+    step - except in the branch where [check_spinout] says [Some false] and the
+    predecessor is dropped (F1), which the guard excludes *)
+Theorem C04_plain_round_sound : forall sw comp cfgs cfg bl vs cfgs' indefs bl' q z q' z' pr sh,
+  In cfg cfgs -> c_state cfg = q' -> bs_conc (c_tape cfg) z' ->
+  to_prog comp (q, zc z) = Some (pr, sh, q') ->
+  tm_step (to_prog comp) (q, z) = Some (q', z') ->
+  get_valid_steps sw cfgs (get_entrypoints comp) = Ok vs ->
+  step_configs vs bl = inl (cfgs', indefs, bl') ->
+  (q = q' -> check_spinout (c_tape cfg) sh (zc z) = None \/
+             (check_spinout (c_tape cfg) sh (zc z) = Some false /\ sw_nodrop sw = true)) ->
+  round_covered cfgs' indefs bl' (c_tape cfg) sh q z.
+Proof. exact plain_round_sound. Qed.
+Print Assumptions C04_plain_round_sound.
+
+(** the dropped predecessor of F1, located on the witness program *)
+Theorem C04_f1_dropped_predecessor_covered : bs_conc (backstep f1_t7 false (zc f1_c6)) f1_c6.
+Proof. exact f1_dropped_predecessor_covered. Qed.
+Print Assumptions C04_f1_dropped_predecessor_covered.
